@@ -495,6 +495,17 @@ impl Gen {
 			_ => (self.rng.unit() * 1000.0 + 1.0).floor() * if self.rng.chance(0.3) { 1.37 } else { 1.0 },
 		};
 		let mut close = close;
+		let (mut open, mut high, mut low) = (open, high, low);
+		if self.one_sided && self.rng.chance(0.03) {
+			// a bar whose range is only a few ulps (valid: low <= open, close <= high)
+			let ulps = 1 + self.rng.below(7);
+			low = close;
+			high = f64::from_bits(close.to_bits() + ulps);
+			open = if self.rng.chance(0.5) { low } else { high };
+			if self.rng.chance(0.5) {
+				close = high;
+			}
+		}
 		if self.one_sided {
 			if self.rng.chance(0.06) {
 				self.side = [0i8, 1, -1, 0][self.rng.below(4) as usize];
